@@ -8,6 +8,7 @@ autocovariances and autocorrelations is put under contract: the stable block han
 to xi, the measurement block, the powers for higher orders, NaN for variables loaded on unit roots, the scaling to
 correlations.  Matrix ENTRIES are symbolic; dimensions and the unit-root pattern are fixed per instance."""
 import itertools
+from fractions import Fraction
 import numpy as np
 from pyvc.prove import contract
 from pyvc.bounded import bounded
@@ -310,3 +311,74 @@ def canary_measurement_noise_ignored(K):
     X = K.ctx.lyaps[0][2]
     z = K.cell_val(K.cell(Za, 0, 0))
     K.ensure("WRONG: var(y) == Za var(alpha) Za'", K.real_eq(K.cell_val(K.cell(acov[0], 1, 1)), z * X[0][0].t * z))
+
+
+# ------------------------------------------------------------------------------ model level: which numbers reach the covariance code
+from irispie.simultaneous import _covariances as SCOV
+PSC = "irispie.simultaneous._covariances:"
+
+
+def _two_variant_model():
+    m = ir.Simultaneous.from_string(ACOV_SOURCE, linear=True)
+    m.alter_num_variants(3)
+    m.assign(rho=[0.5, 0.7, 0.2], phi=[0.3, -0.4, 0.1], unit=[0.2, 0.0, 0.5], std_ex=[0.7, 1.1, 0.3], std_ez=[1.3, 0.2, 0.9], std_eobs=[0.4, 0.6, 2.0])
+    m.solve()
+    return m
+
+
+@contract("C15", targets=[PSC + "Inlay.getv_autocov", PSC + "Inlay.getv_cov_u", PSC + "Inlay.getv_cov_w", PSC + "Inlay.getv_std_u", PSC + "Inlay.getv_std_w", PSC + "_retrieve_stds",
+                          PSC + "_get_system_vector", PSC + "Inlay.get_acov"], instances=[(0,), (1,), (2,)], cross=0, opts={"max_paths": 100})
+def each_variant_uses_its_own_solution_and_standard_deviations(K, vid):
+    """getv_autocov(variant, ...) hands the covariance code the solution of THAT variant and diag(std^2) of THAT variant's
+    shock standard deviations (transition and measurement shocks, in the order of the solution vectors), and keeps of
+    the result exactly the rows and columns of the current-dated variables."""
+    m = _two_variant_model()
+    ml = K.lift(m)
+    vec = m._invariant.dynamic_descriptor.solution_vectors
+    _, zero_shift = SCOV._get_system_vector(m)
+    n_all = len(zero_shift)
+    marker = [np.arange(n_all * n_all, dtype=float).reshape(n_all, n_all) + 1000 * j for j in range(2)]
+    variant = m._variants[vid]
+    calls = []
+
+    def fake(solution, cov_u, cov_w, order):
+        calls.append((solution, cov_u, cov_w, order))
+        return tuple(K.array_cells(mk.tolist()) for mk in marker[:order + 1])
+    res = K.stubbed(COV.get_autocov_square, fake, "the covariance code itself is under its own contract (autocovariances_of_the_solved_model)",
+                    lambda: K.method(ml, "getv_autocov", K.lift(variant) if False else variant, zero_shift, up_to_order=1))
+    K.ensure("one call of the covariance code", len(calls) == 1)
+    sol, cov_u, cov_w, order = calls[0]
+    same_solution = (sol is variant.solution) or np.array_equal(np.asarray(K.concrete_array(K.attr(sol, "T"))), np.asarray(variant.solution.T))
+    K.ensure("the solution of this variant", bool(same_solution) and not any(np.array_equal(np.asarray(v.solution.T), np.asarray(variant.solution.T)) for v in m._variants if v is not variant))
+    n2q = m.create_name_to_qid()
+    su = [variant.levels[m._invariant.shock_qid_to_std_qid[t.qid]] for t in vec.transition_shocks]
+    sw = [variant.levels[m._invariant.shock_qid_to_std_qid[t.qid]] for t in vec.measurement_shocks]
+    for label, cov, sd in (("transition", cov_u, su), ("measurement", cov_w, sw)):
+        K.ensure(f"{label} shock covariance: shape", K.shape(cov) == (len(sd), len(sd)))
+        K.ensure(f"{label} shock covariance: diag(std^2) of this variant",
+                 K.And(*[K.real_eq(K.cell_val(K.cell(cov, i, j)), (K.frac(str(sd[i])) * K.frac(str(sd[i])) if K.symbolic else sd[i] ** 2) if i == j else 0) for i in range(len(sd)) for j in range(len(sd))]))
+    K.ensure("requested order passed on", order == 1)
+    sel = [i for i, z in enumerate(zero_shift) if z]
+    res = list(K.items(res))
+    for j in range(2):
+        K.ensure(f"order {j}: rows and columns of the current-dated variables", np.array_equal(np.asarray(K.concrete_array(res[j])), marker[j][np.ix_(sel, sel)]))
+
+
+@contract("C15", targets=[PSC + "Inlay.rescale_stds", "irispie.simultaneous._get:Inlay._get_std_qids", "irispie.simultaneous._variants:Variant.rescale_values"],
+          instances=[()], cross=0, opts={"max_paths": 100})
+def rescaling_reaches_every_standard_deviation_of_every_variant(K):
+    """rescale_stds(s) multiplies the standard deviation of every shock in EVERY variant by s and changes nothing else."""
+    m = _two_variant_model()
+    before = [dict(v.levels) for v in m._variants]
+    ml = K.lift(m)
+    s = K.real("s", positive=True, sample=(0.2, 5))
+    K.method(ml, "rescale_stds", s)
+    std_qids = set(m._invariant.shock_qid_to_std_qid.values())
+    for i, v in enumerate(K.items(K.attr(ml, "_variants"))):
+        lv = K.attr(v, "levels")
+        for q, old in before[i].items():
+            new = K.index(lv, q)
+            if q in std_qids:
+                K.ensure(f"variant {i}: std {q} multiplied by s", K.real_eq(K.scalar(new), s * float(old)))
+            else:
+                K.ensure(f"variant {i}: quantity {q} untouched", (new is None and old is None) or (old is not None and K.real_eq(K.scalar(new), float(old))))
